@@ -262,10 +262,7 @@ def extract_readers(ex, events: List[Event], reader_cls_names=("BytesReader",), 
             recv = unsnap(e.d["recv"])
             if recv.uid not in readers:
                 # parameter readers / streams
-                if recv.op in ("param",) or recv.op == "ref" or recv.op == "attr":
-                    get(recv)
-                else:
-                    continue
+                get(recv)
             r = readers[recv.uid]
             nm = e.d["name"]
             if nm == "read":
